@@ -208,6 +208,7 @@ type ConfigSpec struct {
 	Override   []OverrideSpec `json:"override"`
 	Lookups    []string       `json:"lookups"`
 	Eval       []string       `json:"eval"`
+	Indep      bool           `json:"indep"` // also observe a second, untouched default configuration before and after
 }
 
 type DeniedObs struct {
@@ -239,6 +240,7 @@ type ConfigObs struct {
 	Over    []OverObs         `json:"over"`
 	Eval    []EvalObs         `json:"eval"`
 	Problem string            `json:"problem,omitempty"`
+	Indep   string            `json:"indep,omitempty"` // "" (not asked), "ok", or what changed / is shared
 }
 
 // walk follows a dotted name through real GetAttr calls starting in a globals map.
@@ -435,6 +437,17 @@ func (b *Base) RunConfig(spec ConfigSpec) ConfigObs {
 		opts = append(opts, risor.WithGlobalOverride(ov.Name, val))
 	}
 
+	// a second default configuration, created BEFORE this one is initialised and observed again afterwards
+	var gB map[string]any
+	var sigB string
+	var hB *Heap
+	if spec.Indep {
+		gB = risor.NewConfig().Globals()
+		hB = NewHeap(b.H.Dict)
+		hB.AddRoots(gB)
+		sigB = hB.shape()
+	}
+
 	cfg := risor.NewConfig(opts...)
 	globals := cfg.Globals()
 	for k := range globals {
@@ -476,10 +489,13 @@ func (b *Base) RunConfig(spec ConfigSpec) ConfigObs {
 		if o == nil {
 			return false
 		}
+		k, ok := keyOf(o)
+		if _, isNew := newVals[k]; ok && isNew {
+			return reachKey[k]
+		}
 		if spec.Mode == "B" {
 			return reachBase[baseID(o)]
 		}
-		k, ok := keyOf(o)
 		return ok && reachKey[k]
 	}
 	for _, nm := range spec.Deny {
@@ -509,6 +525,52 @@ func (b *Base) RunConfig(spec ConfigSpec) ConfigObs {
 		}
 		obs.Eval = append(obs.Eval, EvalObs{Src: src, Res: r})
 	}
+	if spec.Indep {
+		obs.Indep = "ok"
+		hB2 := NewHeap(b.H.Dict)
+		rB2, _ := hB2.AddRoots(gB)
+		if hB2.shape() != sigB {
+			obs.Indep = "the other configuration's object graph changed"
+		}
+		// identities shared between the two configurations: only immutable singletons are allowed
+		for id := range hB2.Reachable(rB2) {
+			n := hB2.Nodes[id-1]
+			if n.Fresh {
+				continue
+			}
+			k, _ := keyOf(n.Obj)
+			if reachKey[k] && (n.Kind == "module" || n.Kind == "builtin" || n.Kind == "dynamic_attr") {
+				obs.Indep = "shared " + n.Kind + " " + n.Desc
+			}
+		}
+		// and the other configuration still resolves every one of its names to its own objects
+		for _, nm := range spec.Deny {
+			if pre[nm] != nil && walkName(gB, nm) == nil {
+				obs.Indep = "name " + nm + " disappeared from the other configuration"
+			}
+		}
+		for _, ov := range spec.Override {
+			if o := walkName(gB, ov.Name); o != nil {
+				if k, ok := keyOf(o); ok {
+					if _, isNew := newVals[k]; isNew {
+						obs.Indep = "override of " + ov.Name + " visible in the other configuration"
+					}
+				}
+			}
+		}
+	}
 	_ = keep
 	return obs
+}
+
+// shape renders the heap without addresses (kinds, descriptions, labelled edges in canonical order).
+func (h *Heap) shape() string {
+	var sb strings.Builder
+	for _, n := range h.Nodes {
+		fmt.Fprintf(&sb, "%d %v %s %s;", n.ID, n.Fresh, n.Kind, n.Desc)
+	}
+	for _, e := range h.Edges {
+		fmt.Fprintf(&sb, "%d %s %v %d;", e.Src, e.Label, e.Member, e.Dst)
+	}
+	return sb.String()
 }
